@@ -128,8 +128,21 @@ Run(g, T, E, lens, mode) ==
 ----------------------------------------------------------------------------
 (* 3a. train_uts: no bookkeeping of its own - the learner's count IS the      *)
 (* scheduler's counter                                                        *)
-UtsInit == [gs |-> 0, exec |-> 0, calls |-> 0]
-UtsAfter(u, run) == [gs |-> run.reported, exec |-> u.exec + run.executed, calls |-> u.calls + 1]
+(* Warm-up hand-over: the learner compares `learning_starts` with its ABSOLUTE *)
+(* step counter - at counter value c (c = g, g+1, ..) it acts randomly and     *)
+(* performs no update while c < ls.  EarlyUpdate: some update of this call     *)
+(* happens when fewer than `expl` environment steps have been executed in all. *)
+EarlyUpdate(g, executed, ls, execBefore, expl) ==
+  \E c \in g..(g + executed - 1) : c >= ls /\ execBefore + (c - g) < expl
+UtsInit == [gs |-> 0, exec |-> 0, calls |-> 0, early |-> FALSE]
+(* one call: given counter g, learning_starts ls; expl = exploring_starts of train_uts *)
+UtsAfter(u, g, run, ls, expl) ==
+  [gs |-> run.reported, exec |-> u.exec + run.executed, calls |-> u.calls + 1,
+   early |-> u.early \/ EarlyUpdate(g, run.executed, ls, u.exec, expl)]
+(* what train_uts hands to every call: the absolute threshold, unchanged *)
+UtsWarmup(expl, gs) == expl
+(* deviation: the part of the warm-up that is "left", relative to the round *)
+UtsWarmupRelative(expl, gs) == IF expl > gs THEN expl - gs ELSE 0
 
 (* 3b. train_active_mt: steps are read from the episode statistics of the     *)
 (* wrapped environment; a call that did not finish E episodes hit the budget  *)
